@@ -47,6 +47,10 @@ type env[E any, P fields.Ptr[E], D any, T any] struct {
 	k    int // two-adicity of q-1, computed by the oracle
 
 	notedStale bool
+	// dead: (operation, configuration) pairs that panicked on the calling goroutine with nbTasks=1. They are not run
+	// again with goroutines (a panic inside a library goroutine cannot be recovered and would end the whole stage).
+	dead   sync.Map
+	deadLg sync.Map
 }
 
 func (e *env[E, P, D, T]) hx(v T) string { return e.A.ToBig(v).Text(16) }
